@@ -14,8 +14,10 @@ let minus1 = z_of_string "-1"
 let pd_of (tbl : (n list * z) list) : n list -> z = fun b -> (match List.assoc_opt b tbl with Some v -> v | None -> minus1)
 let show_hdrs (hs : hdr list) : string =
   if hs = [] then "-" else String.concat "," (List.map (fun h -> hex_of_bytes h.h_name ^ "=" ^ hex_of_bytes h.h_value) hs)
-let verdict_s (ranged : bool) = function
-  | V304 -> "304" | V412 -> "412" | VMiss -> "miss" | VHit -> if ranged then "hit206" else "hit200"
+(* a plain hit shows the stored status; a satisfiable Range turns a stored 200 into a 206 *)
+let verdict_s (st : string) (ranged : bool) = function
+  | V304 -> "304" | V412 -> "412" | VMiss -> "miss"
+  | VHit -> if st <> "200" then "hit" ^ st else if ranged then "hit206" else "hit200"
 
 (* split the argument list at "P" markers *)
 let rec probes (args : string list) : string list list =
@@ -46,13 +48,13 @@ let () =
     let e = { en_status = n_of_string st; en_hdrs = pick "e" args; en_timestamp = z_of_string ts } in
     String.concat " " (List.map (fun (gh :: rg :: pa) ->
       let r = { rq_get_or_head = (gh = "1"); rq_ranged = (rg = "1"); rq_hdrs = pick "r" pa } in
-      verdict_s (rg = "1") (hit_verdict pd r e)) (probes args)));
+      verdict_s st (rg = "1") (hit_verdict pd r e)) (probes args)));
   (* cond.reval <ts_after> <origin status> e:.. f:.. r:.. d:.. t:.. *)
   reg "cond.reval" (fun (ts :: st :: args) ->
     let pd = pd_of (dates args) in
     let old = { en_status = n_of_int 200; en_hdrs = pick "e" args; en_timestamp = z_of_string ts } in
     let r = { rq_get_or_head = true; rq_ranged = false; rq_hdrs = pick "r" args } in
-    let (what, after) = handle_ims_reply pd r old (n_of_string st) (pick "f" args) (z_of_string ts) false false in
+    let (what, after) = handle_ims_reply pd r old (n_of_string st) (pick "f" args) (z_of_string ts) false in
     let w = (match what with RForward304 -> "fwd304" | ROld -> "old" | RNew -> "new") in
     let body3 = (match what with RNew -> "new" | _ -> "old") in
     w ^ " " ^ body3 ^ " " ^ show_hdrs (tracked (names args) after));
